@@ -56,6 +56,17 @@ def sources(tier, seed, ctx):
         net = gen.random_netlist(rng, ni=rng.randint(1, 4), ng=rng.randint(1, 20))
         srcs.append({'k': 'eval', 'net': [net[0], net[1]], 'outs': gen.pick_outputs(rng, net[0], len(net[1])), 'variant': rng.choice(['plain', 'shuffle']), 'vs': rng.randrange(10**6)})
     ctx['gen_note'] = '; '.join(note)
+    # ladders: one internal gate shared by every stage of a long chain (the explicit-stack evaluator pushes it again
+    # at every stage), operand order both ways
+    for op in ('AND', 'OR', 'XOR', 'GT', 'NAND'):
+        for stages in (5, 6, 9):
+            for first in (True, False):
+                gs = [['AND', [1, 2]], [op, [4, 3] if first else [3, 4]]]
+                for k in range(2, stages + 1):
+                    prev = 3 + k          # node number of the previous stage
+                    gs.append([op, [4, prev] if first else [prev, 4]])
+                srcs.append({'k': 'eval', 'net': [3, gs], 'outs': [3 + len(gs)], 'variant': 'plain', 'vs': 2 * stages + first})
+
     return srcs
 
 
